@@ -138,7 +138,7 @@ def replay(payload):
     if payload.get("engine") == "R":
         from ._r import replay_r
         return replay_r(invalid_scenarios(), [acc_invalid_must_abort], on_exc_invalid, payload)
-    if payload.get("engine") == "F" and payload.get("grid") not in ("deep_one_sided_books", "heap_layouts"):
+    if payload.get("engine") == "F" and payload.get("grid") not in ("deep_one_sided_books", "heap_layouts", "books_with_ties"):
         from ..common import Violation, Counter
         try:
             ctor_fn(tuple(payload["case"]), Counter())
